@@ -1217,21 +1217,10 @@ func (g *G) next(x *ssa.Next, it *IterV) Value {
 		b := bs[it.Pos]
 		if b.UHi >= 0x80 {
 			if !m.cond2("byte<0x80", c.Ult(b, c.BV(8, 0x80))) {
-				if b.IsConst() {
-					// decode concrete utf-8
-					var raw []byte
-					for _, t := range bs[it.Pos:] {
-						if !t.IsConst() || len(raw) >= 4 {
-							break
-						}
-						raw = append(raw, byte(t.Val))
-					}
-					r, size := decodeRune(raw)
-					pos := it.Pos
-					it.Pos += size
-					return Tuple{c.True, c.BV(64, uint64(pos)), c.BV(32, uint64(r))}
-				}
-				m.cut("range over string with non-ASCII symbolic byte")
+				r, size := g.decodeRuneSym(bs[it.Pos:])
+				pos := it.Pos
+				it.Pos += size
+				return Tuple{c.True, c.BV(64, uint64(pos)), r}
 			}
 		}
 		pos := it.Pos
@@ -1281,6 +1270,52 @@ func (m *Machine) zeroOrNil(t types.Type) Value {
 		return nil
 	}
 	return m.zero(t)
+}
+
+// decodeRuneSym decodes one UTF-8 sequence starting at a byte known to be >= 0x80 (symbolic bytes
+// allowed): it forks on the lead-byte class and on the validity of the continuation bytes, exactly
+// like utf8.DecodeRune / the range-over-string loop (invalid input yields U+FFFD of width 1).
+func (g *G) decodeRuneSym(bs []*Term) (*Term, int) {
+	m := g.m
+	c := m.ctx
+	bad := func() (*Term, int) { return c.BV(32, 0xFFFD), 1 }
+	in := func(b *Term, lo, hi uint64) *Term { return c.And(c.Ule(c.BV(8, lo), b), c.Ule(b, c.BV(8, hi))) }
+	b0 := bs[0]
+	z := func(b *Term) *Term { return c.Zext(b, 32) }
+	// class: 0 invalid, 2/3/4 sequence length
+	cls := m.branch("utf8-lead", c.Or(in(b0, 0x80, 0xC1), in(b0, 0xF5, 0xFF)), in(b0, 0xC2, 0xDF), in(b0, 0xE0, 0xEF), in(b0, 0xF0, 0xF4))
+	switch cls {
+	case 0:
+		return bad()
+	case 1:
+		if len(bs) < 2 || !m.cond2("utf8-cont", in(bs[1], 0x80, 0xBF)) {
+			return bad()
+		}
+		r := c.BOr(c.Shl(c.BAnd(z(b0), c.BV(32, 0x1F)), c.BV(32, 6)), c.BAnd(z(bs[1]), c.BV(32, 0x3F)))
+		return r, 2
+	case 2:
+		if len(bs) < 3 {
+			return bad()
+		}
+		// second byte range depends on the lead byte (E0: A0..BF, ED: 80..9F, otherwise 80..BF)
+		ok1 := c.Ite(c.Eq(b0, c.BV(8, 0xE0)), in(bs[1], 0xA0, 0xBF), c.Ite(c.Eq(b0, c.BV(8, 0xED)), in(bs[1], 0x80, 0x9F), in(bs[1], 0x80, 0xBF)))
+		if !m.cond2("utf8-cont", c.And(ok1, in(bs[2], 0x80, 0xBF))) {
+			return bad()
+		}
+		r := c.BOr(c.BOr(c.Shl(c.BAnd(z(b0), c.BV(32, 0x0F)), c.BV(32, 12)), c.Shl(c.BAnd(z(bs[1]), c.BV(32, 0x3F)), c.BV(32, 6))), c.BAnd(z(bs[2]), c.BV(32, 0x3F)))
+		return r, 3
+	default:
+		if len(bs) < 4 {
+			return bad()
+		}
+		ok1 := c.Ite(c.Eq(b0, c.BV(8, 0xF0)), in(bs[1], 0x90, 0xBF), c.Ite(c.Eq(b0, c.BV(8, 0xF4)), in(bs[1], 0x80, 0x8F), in(bs[1], 0x80, 0xBF)))
+		if !m.cond2("utf8-cont", c.And(ok1, c.And(in(bs[2], 0x80, 0xBF), in(bs[3], 0x80, 0xBF)))) {
+			return bad()
+		}
+		r := c.BOr(c.BOr(c.Shl(c.BAnd(z(b0), c.BV(32, 0x07)), c.BV(32, 18)), c.Shl(c.BAnd(z(bs[1]), c.BV(32, 0x3F)), c.BV(32, 12))),
+			c.BOr(c.Shl(c.BAnd(z(bs[2]), c.BV(32, 0x3F)), c.BV(32, 6)), c.BAnd(z(bs[3]), c.BV(32, 0x3F))))
+		return r, 4
+	}
 }
 
 func decodeRune(p []byte) (rune, int) {
